@@ -98,13 +98,13 @@ fn exec(c: &Case) -> Vec<String> {
     drop(tx);
     let mut out = vec![];
     loop {
-        match rx.recv_timeout(Duration::from_secs(20)) {
+        match rx.recv_timeout(Duration::from_secs(20 * nvh::load_factor() as u64)) {
             Ok((k, v)) => out.push(format!("I:{}", Val::pair(k, Val::List(v)))),
             Err(e) if e.to_string().contains("timed out") => return vec!["hang".into()],
             Err(_) => break, // disconnected: the sink is gone
         }
     }
-    if done_rx.recv_timeout(Duration::from_secs(20)).is_err() {
+    if done_rx.recv_timeout(Duration::from_secs(20 * nvh::load_factor() as u64)).is_err() {
         return vec!["hang".into()];
     }
     out
